@@ -12,12 +12,13 @@ COMMON_TB = [
 PROPS = {
     "C12": {
         "title": "Log files return exactly the records appended",
-        "technique": "Lean 4 theorems (round trip for all record lengths and session splits, truncation at every byte, writer death between fragments) over a model of logs.rs + byte-exact differential test of LogWriter/LogReader against the compiled model",
+        "technique": "Lean 4 theorems (round trip for all record lengths and session splits, truncation at every byte, writer death between fragments) over a model of logs.rs + byte-exact differential test of LogWriter/LogReader against the compiled model + the same oracles on the crate's real disk-backed filesystem (TmpFileSystem in a scratch directory): generated histories with clean close + reopen and a log appended to in two sessions",
         "level_text": "Machine-checked proof over the Lean model of LogWriter/LogReader for every block size, checksum function, record list, session split, truncation point and fragment cut; the model is tied to the code on every run by byte-exact comparison of file contents and reader output, exhaustively around the block-boundary arithmetic, and the round-trip/truncation/partial-append oracle is evaluated on the implementation itself.",
         "design_ref": "5 (C12)",
         "level": "proof",
         "lean_modules": ["Rain.Props.C12", "Rain.Legacy.LogD8"],
-        "components": ["c12"],
+        "components": ["c12", "disk"],
+        "sig_prefixes": ["c12:", "disk:"],
         "trusted_base": COMMON_TB + [
             "crc crate's CRC-32C (a parameter of the theorems with the only hypothesis crc d < 2^32; concrete Lean CRC-32C used only for byte-exact comparison)",
         ],
@@ -104,8 +105,8 @@ LSM_TB = DB_TB + [
 ]
 PROPS["C01"] = {
     "level": "proof", "title": "Reads return the latest committed write, wherever the data lives",
-    "lean_modules": ["Rain.Props.Lsm", "Rain.Props.Lru"], "components": ["lsm", "lru"], "sig_prefixes": ["c01:", "c07:", "c10:", "c09:", "lru:"],
-    "technique": "Lean 4 refinement proof (DB::get = newest entry at or below the bound over memtable / immutable memtable / level-0 files / deeper levels; every transition preserves invariant and views; C01_reads_latest for every action list) + trace validation of the real worker's transitions against the proved relation + BTreeMap oracle + LRU cache model (table cache, block cache): Lean 4 proofs that for every operation sequence a hit is the last value inserted for that key, never another key's or an older one (cache_contents_sound, cache_answers_sound), size <= capacity, recently used keys stay; the real LRUCache is run against the model on generated sequences and hammered from several threads",
+    "lean_modules": ["Rain.Props.Lsm", "Rain.Props.Lru"], "components": ["lsm", "lru", "disk"], "sig_prefixes": ["c01:", "c07:", "c10:", "c09:", "lru:", "disk:"],
+    "technique": "Lean 4 refinement proof (DB::get = newest entry at or below the bound over memtable / immutable memtable / level-0 files / deeper levels; every transition preserves invariant and views; C01_reads_latest for every action list) + trace validation of the real worker's transitions against the proved relation + BTreeMap oracle + LRU cache model (table cache, block cache): Lean 4 proofs that for every operation sequence a hit is the last value inserted for that key, never another key's or an older one (cache_contents_sound, cache_answers_sound), size <= capacity, recently used keys stay; the real LRUCache is run against the model on generated sequences and hammered from several threads + the same oracles on the crate's real disk-backed filesystem (TmpFileSystem in a scratch directory): generated histories with clean close + reopen and a log appended to in two sessions",
     "level_text": "Machine-checked proof over the LSM model (read path exactly as Version::get searches, all transitions guarded only by validity predicates, no size thresholds, hence every DbOptions): for every history a get at the latest sequence number returns the most recent write. " + LSM_TIE + ".",
     "design_ref": "5 (C01)", "trusted_base": LSM_TB,
     "assumptions": ["single client (concurrency is C05/C06)", "Table::get meets its specification lookupSorted (proved for the table model in C13, filters never cut a lookup short: C14)"],
@@ -151,8 +152,8 @@ DUR_TB = DB_TB + [
 ]
 PROPS["C02"] = {
     "level": "proof", "title": "Acknowledged writes survive a crash at any point; batches are all-or-nothing",
-    "lean_modules": ["Rain.Props.Durable", "Rain.Props.C12", "Rain.Props.Codec", "Rain.Props.Builder"], "components": ["c02", "codec", "builder"], "sig_prefixes": ["c02:", "c09:", "c11:file-needed", "codec:"],
-    "technique": "Lean 4 proof that every prefix of an operation stream accepted by the durability monitor recovers to exactly the batches whose WAL append is in the prefix (C02_every_prefix_recovers) + the monitor evaluated on every recorded real stream + crash enumeration of EVERY prefix (and of prefixes of the recovery of crash images) on the real code with an acknowledged/in-flight oracle + record codecs: Lean 4 model of the write-batch record and the manifest record with theorems for ALL records (round trip, injectivity, every proper prefix of a batch record is rejected, trailing bytes / torn fields of a manifest record are rejected, field-boundary cuts are exactly the shorter records); the real encoders and decoders are run against the model on generated records and on damaged encodings + version builder: Lean 4 model of VersionBuilder (accumulate_changes / apply_changes, overlap assertion) with proofs that replaying a whole manifest with one builder equals installing the edits one at a time (under the explicit freshness condition on file numbers, with kernel-checked counterexamples without it), that flush / trivial-move / compaction edits reproduce the LSM model's transitions and never trip the overlap assertion, and that the result agrees with the durability model's versionOf; the real builder is run against the model on synthetic versions and edit lists",
+    "lean_modules": ["Rain.Props.Durable", "Rain.Props.C12", "Rain.Props.Codec", "Rain.Props.Builder"], "components": ["c02", "codec", "builder", "disk"], "sig_prefixes": ["c02:", "c09:", "c11:file-needed", "codec:", "disk:"],
+    "technique": "Lean 4 proof that every prefix of an operation stream accepted by the durability monitor recovers to exactly the batches whose WAL append is in the prefix (C02_every_prefix_recovers) + the monitor evaluated on every recorded real stream + crash enumeration of EVERY prefix (and of prefixes of the recovery of crash images) on the real code with an acknowledged/in-flight oracle + record codecs: Lean 4 model of the write-batch record and the manifest record with theorems for ALL records (round trip, injectivity, every proper prefix of a batch record is rejected, trailing bytes / torn fields of a manifest record are rejected, field-boundary cuts are exactly the shorter records); the real encoders and decoders are run against the model on generated records and on damaged encodings + version builder: Lean 4 model of VersionBuilder (accumulate_changes / apply_changes, overlap assertion) with proofs that replaying a whole manifest with one builder equals installing the edits one at a time (under the explicit freshness condition on file numbers, with kernel-checked counterexamples without it), that flush / trivial-move / compaction edits reproduce the LSM model's transitions and never trip the overlap assertion, and that the result agrees with the durability model's versionOf; the real builder is run against the model on synthetic versions and edit lists + the same oracles on the crate's real disk-backed filesystem (TmpFileSystem in a scratch directory): generated histories with clean close + reopen and a log appended to in two sessions",
     "level_text": "Machine-checked proof over the durability model (persistent image as complete records, recovery function, ordering monitor) for every monitored stream and every prefix, i.e. every crash point, including crashes during recovery and repeated crash-recover rounds (recovery's operations are part of the stream). Tied to the code on every run: the stream of mutating filesystem operations recorded by SimFs for generated histories (writes, multi-key batches, values spanning several 32 KiB log blocks, flushes, compactions, manifest switches, reopens with both log-reuse settings) is translated to model operations and must be accepted by the monitor; independently every prefix of the stream (an even sample for long streams, always around renames/removals/creations) becomes a crash image that is reopened on the real code, compared with acknowledged +/- in-flight contents, written to, closed, reopened; crashes inside the recovery of crash images are enumerated one level deep.",
     "design_ref": "5 (C02)", "trusted_base": DUR_TB,
     "assumptions": ["a write is acknowledged only after its WAL append completed (apply_changes, proved at protocol level: C05_wal_before_memtable)", "crash = prefix of the operation stream; a torn last write is C16"],
